@@ -29,6 +29,21 @@ CLAIMED = {
         technique="symbolic execution (CrossHair/z3) of real constructors vs Specification oracle, path-tree exhaustion",
         ref="3/C02",
     ),
+    "C03": dict(
+        text="Symbolic execution of the real reader on in-memory definitions generated from sequences of line EVENTS (field, "
+        "array field, constant, padding, documented field, blank, detached comment, directive) for messages and services, "
+        "structures and unions, sealed-first / sealed-last / @extent, with and without header docs and @deprecated. An "
+        "oracle computes the expected model from the event list; every text is read in up to 7 formatting variants (LF/CRLF "
+        "x final newline, wide blanks and trailing blanks, tabs, extra blank lines and detached comments) which must all give "
+        "that model, and the model rendered to canonical DSDL must read back equal. Constant value (every int64), array "
+        "capacity and extent are symbolic through identifier injection (c03.values); event sequences are choice-exhaustive "
+        "up to 3 (quick) / 4 (thorough) events per section.",
+        note="Event sequences and formatting variants are enumerated scaffolding / choice variables (the grammar needs concrete "
+        "text); the solver-relevant variables are the values. Nested composite fields are covered under C09, non-ASCII "
+        "comments are outside.",
+        technique="symbolic execution (CrossHair/z3) of real reader vs event-list oracle; symbolic values, choice-exhaustive layouts",
+        ref="3/C03",
+    ),
     "C04": dict(
         text="Symbolic execution of the real grammar visitor and expression operators: an expression TREE is rendered "
         "to text (minimal parentheses by the Specification's precedence table, without blanks, and fully parenthesised) "
